@@ -15,7 +15,7 @@ use pico::{Database, SourceId};
 use prelude::Postfix;
 
 use crate::{
-    read_files::{read_file, read_files_in_folder},
+    read_files::{is_iso_literal_source_path, read_file, read_files_in_folder},
     watch::{ChangedFileKind, SourceEventKind, SourceFileEvent},
     write_artifacts::unable_to_do_something_at_path_diagnostic,
 };
@@ -145,9 +145,8 @@ fn handle_update_source_file<TCompilationProfile: CompilationProfile>(
                 db.get_current_working_directory(),
                 source_path,
             );
-            if db.remove_iso_literal(source_file_path).is_some() {
-                create_or_update_iso_literals(db, target_path)?
-            }
+            db.remove_iso_literal(source_file_path);
+            create_or_update_iso_literals(db, target_path)?
         }
         SourceEventKind::Remove(path) => {
             let interned_file_path = relative_path_from_absolute_and_working_directory(
@@ -164,6 +163,10 @@ fn create_or_update_iso_literals<TCompilationProfile: CompilationProfile>(
     db: &mut IsographDatabase<TCompilationProfile>,
     path: &Path,
 ) -> LocationFreeDiagnosticResult<()> {
+    if !is_iso_literal_source_path(path) {
+        // Not a file that a batch compile would read.
+        return Ok(());
+    }
     let (relative_path, content) =
         // TODO this function should live here
         read_file(path.to_path_buf(), db.get_current_working_directory())?;
